@@ -25,6 +25,7 @@
 
 #include "modules/iauth.h"
 
+#include <limits.h> /* INT_MIN, INT_MAX */
 #include <unistd.h> /* STDIN_FILENO */
 
 /** Set of all pending IAuth requests. */
@@ -817,6 +818,7 @@ static void iauth_read(evutil_socket_t fd, short events, void *iauth_in_v)
     char *line;
     char *sep;
     size_t argc, len;
+    long lid;
     int id, res;
 
     if (!(events & EV_READ))
@@ -844,7 +846,16 @@ static void iauth_read(evutil_socket_t fd, short events, void *iauth_in_v)
         }
 
         log_message(iauth_log, LOG_DEBUG, "> %s", line);
-        id = strtol(line, &sep, 10);
+        lid = strtol(line, &sep, 10);
+
+        /* A client id that does not fit an int cannot name any request;
+         * truncating it could make it alias a live client.
+         */
+        if (lid < INT_MIN || lid > INT_MAX) {
+            free(line);
+            continue;
+        }
+        id = (int)lid;
 
         /* Parse the remaining arguments. */
         for (argc = 0; argc < ARRAY_LENGTH(argv); ) {
